@@ -45,6 +45,12 @@ fn echo_log() -> bool {
     *ON.get_or_init(|| std::env::var("VERIF_ECHO_LOG").is_ok())
 }
 
+/// the interpreter's column belief must agree with the terminal's cursor whenever it reports or prompts
+fn term_strict() -> bool {
+    static ON: std::sync::OnceLock<bool> = std::sync::OnceLock::new();
+    *ON.get_or_init(|| std::env::var("VERIF_TERM_STRICT").is_ok())
+}
+
 pub fn last_panic() -> String {
     LAST_PANIC.with(|p| p.borrow().clone())
 }
@@ -240,6 +246,8 @@ pub struct World {
     pub midline_stops: u64,
     /// very long runs: Print events are counted and hashed but not stored (only the last few, in `tail`)
     pub quiet: bool,
+    /// the last interrupt was delivered instead of a reply to a pending Input request
+    pub intr_at_input_wait: bool,
     pub tail: std::collections::VecDeque<String>,
     pub quiet_prints: u64,
     pub quiet_hash: u64,
@@ -308,6 +316,7 @@ impl World {
             last_intr_site: String::new(),
             midline_stops: 0,
             quiet: false,
+            intr_at_input_wait: false,
             tail: std::collections::VecDeque::new(),
             quiet_prints: 0,
             quiet_hash: 0xcbf2_9ce4_8422_2325,
@@ -468,6 +477,12 @@ impl World {
             "Stopped" => self.stats.bump("intr.state.Stopped"),
             "Intro" => self.stats.bump("intr.state.Intro"),
             _ => self.stats.bump("intr.state.other"),
+        }
+        self.intr_at_input_wait = p.state == "Input";
+        if self.intr_at_input_wait {
+            // Ctrl-C at a pending INPUT prompt: the line editor gives the line up and the cursor
+            // goes to the start of a fresh line (the interpreter assumes so as well)
+            self.true_col = 0;
         }
         self.stats.bump("fault.interrupt");
         self.note("interrupt()".to_string());
@@ -646,11 +661,32 @@ impl World {
                     } else {
                         if s == "\nREADY.\n" {
                             self.midline_stops += 1;
+                            if self.true_col == 0 {
+                                self.stats.bump("term.prompt_forced_line_break_at_column_0");
+                            }
+                        } else if s == "READY.\n" && self.true_col != 0 {
+                            self.stats.bump("term.prompt_without_line_break_mid_line");
                         }
                         self.on_print(s)
                     }
                 }
                 Event::Errors(e) => {
+                    if self.true_col != 0 {
+                        self.stats.bump("term.error_report_not_at_column_0");
+                        // a ?BREAK report is always put on a line of its own: the interpreter breaks the
+                        // line first when its column counter says the cursor is mid-line. Arriving
+                        // mid-line means the counter and the terminal's cursor disagree (C11's column
+                        // clause) or the line break was skipped.
+                        let all_break = !e.is_empty() && e.iter().all(|x| x.to_string().starts_with("?BREAK"));
+                        if all_break {
+                            let col = self.true_col;
+                            self.fail("break-report-mid-line", format!("?BREAK was reported with the cursor at column {} (no line break in front of it)", col));
+                        }
+                        if term_strict() {
+                            let col = self.true_col;
+                            self.fail("column-belief:error-report-mid-line", format!("an error report arrived with the cursor at column {}", col));
+                        }
+                    }
                     self.true_col = 0;
                     self.events.push(Ev::Errors(err_infos(&e)));
                 }
